@@ -70,7 +70,10 @@ def run_one(ctx, g, pos, shift, byname, variant_name=None, pos_as="list"):
         fpos = [int(x) for x in fpos]
         ctx.event("integer-typed-position")
     if byname:
-        m = structure.multiplicity(fpos, sgname=variant_name, cell_choice=g.choice)
+        if g.choice == "rhombohedral" and len(fpos) and int(abs(float(fpos[0])) * 1000) % 2:
+            m = structure.multiplicity(fpos, sgname=variant_name)          # the trailing r of the name selects the setting
+        else:
+            m = structure.multiplicity(fpos, sgname=variant_name, cell_choice=g.choice)
     else:
         m = structure.multiplicity(fpos, sgno=g.no, cell_choice=g.choice)
     if not byname:
